@@ -114,6 +114,16 @@ def real2_groups(tier, seed):
                     calls.append('RBOOL_CASE(%s, %d, 7, "%s", %du, %s);' % (t, n, nm, seed * 13 + len(calls), txt))
             for n in pick(2 if tier == "quick" else 5):
                 calls.append("run_rdivs<%s,%d>(%du, %d);" % (t, n, seed * 7 + n, rng.choice([2, 3, 7, 10])))
+            # scalar of a different arithmetic type than the tensor (conversion happens inside the library)
+            others = {"float": ["double", "int", "int64_t"], "double": ["float", "int", "int64_t"], "int32_t": ["int64_t", "short"], "int64_t": ["int", "short"]}[t]
+            for S in others:
+                for op in ([rng.choice([1, 2, 3]), 4] if tier == "quick" else [1, 2, 3, 4]):
+                    for n in pick(1 if tier == "quick" else 3):
+                        calls.append("run_rscal<%s,%s,%d,%d>(%du, %d);" % (t, S, n, op, seed * 11 + n, rng.choice([2, 3, 7, 10])))
+            if fp:      # literal scalars of another type inside expressions
+                for (nm, op, txt) in [("lit0", 0, "A * 2 + B"), ("lit1", 1, "3 - A * 0.5f"), ("lit2", 2, "A / 4 - 2 * B"), ("lit3", 0, "(A + 1) * (B - 1.5f)")]:
+                    for n in pick(1 if tier == "quick" else 3):
+                        calls.append('REXPR2_CASE(%s, %d, %d, 5, "%s", %du, %s);' % (t, n, op, nm, seed * 13 + len(calls), txt))
             if fp:
                 fns = UNARY      # every function in both tiers (one size each in quick)
                 for fn in fns:
